@@ -7,7 +7,7 @@ SPEC = {
         "AM.Dedup.eligible_listed_or_recorded",
     ],
     "engines": [
-        {"name": "cluster", "pkg": "./cluster", "search_cases": 8000},
+        {"name": "cluster", "pkg": "./cluster", "timeout_quick": 90, "search_cases": 8000},
     ],
     "rule": "1-3 REAL pipelines (PipelineBuilder.New incl. the real ClusterWaitStage, wait = position x 15 s, every assignment of positions) each on its own real "
             "nflog.Log, joined by a scripted gossip channel (per-link delay below / above the peer timeout, loss, late re-delivery of everything ever broadcast), "
